@@ -240,7 +240,7 @@ impl Property for C19 {
         "fault_enumeration"
     }
     fn rule(&self) -> String {
-        "ENUMERATED directed families, each a program text parameterised by a magnitude: 32 nesting/length/cycle families (parentheses, blocks, unary chains, ternaries through condition / then / else, calls, operator chains +, @, ||, ==, #if nesting, #elif chains, data lists, label counts, literal length in decimal and hex, sub-rule cycles and chains, recursion cycles of length 1..4 through asm blocks and functions with and without parameters, a rule with n expression parameters, a chain of n asm-block rules around a forward reference, a recursive asm-block rule whose argument text grows per level) x depths {1,10,49,50,51,52,100,10^3,10^4,10^5}; 40 numeric families (shift amounts, slice bounds on positive and negative values, short-slice width, #dN, uN/sN/iN suffix used sliced, whole, concatenated and through a sub-rule, concatenation of slices, le() width, \
+        "ENUMERATED directed families, each a program text parameterised by a magnitude: 33 nesting/length/cycle families (data directives nested through asm blocks, parentheses, blocks, unary chains, ternaries through condition / then / else, calls, operator chains +, @, ||, ==, #if nesting, #elif chains, data lists, label counts, literal length in decimal and hex, sub-rule cycles and chains, recursion cycles of length 1..4 through asm blocks and functions with and without parameters, a rule with n expression parameters, a chain of n asm-block rules around a forward reference, a recursive asm-block rule whose argument text grows per level) x depths {1,10,49,50,51,52,100,10^3,10^4,10^5}; 40 numeric families (shift amounts, slice bounds on positive and negative values, short-slice width, #dN, uN/sN/iN suffix used sliced, whole, concatenated and through a sub-rule, concatenation of slices, le() width, \
          #res, #res followed by data, #align, #addr, every #bankdef field incl. bits x size, fill and labelalign, incbin/inchexstr start and size, product growth, --iters, #addr / #res in banks with a non-zero output offset, #res and #align in a bank with a huge address unit, a second bank with a huge output offset, an asm block behind a huge #addr, le() and an asm block over a parameter of huge declared width) x magnitudes \
          {2^k-1, 2^k, 2^k+1 : k in 7,8,15,16,31,32,33,62,63,64,65} + 8*10^8, 6.4*10^9, -1, 0, 4*10^8, 8*10^8-1. Each case is one run of the REAL \
          binary (built with overflow checks; thorough: also the stock release build) in its own process under RLIMIT_CPU 10 s (thorough 30 s), RLIMIT_AS 4 GiB, the default 8 MiB stack. Oracle: the \
